@@ -7,7 +7,8 @@
    are not exceptions; the harness observes those cases directly on the implementation. *)
 From Coq Require Import ZArith List Bool String.
 From Rbacx Require Import Value Cond Target Policy PolicySet Compiler Oblig Engine Schema
-     PolicyProofs PolicySetProofs ObligProofs EngineProofs SchemaProofs.
+     PolicyProofs PolicySetProofs ObligProofs EngineProofs SchemaProofs
+     Cache CacheKey CacheGuard CacheGuardProofs CacheExplain CacheExplain2.
 Import ListNotations.
 Local Open Scope string_scope.
 
@@ -83,3 +84,106 @@ Example c06_example :
   | _ => False
   end.
 Proof. vm_compute. repeat split. Qed.
+
+(* ------------------------------------------------------------------ *)
+(* through the decision cache ("cold and cached"): C08 composed with the theorems above *)
+(* ------------------------------------------------------------------ *)
+Local Open Scope list_scope.   (* ++ is list append below *)
+(* Histories h of HEval w req | HSetPolicy w p | HClear w | HTick dt on one or two guards g1, g2
+   (w: false = first, true = second) sharing ONE cache M, as in props/C08.v and props/C01.v;
+   run_cached answers, per evaluation in order, (was it a hit, Decision | Raise | Ood).  A SITE of h
+   is a decomposition h = pre ++ HEval w req :: post; its answer is answer number [evals_in pre].
+   Hypotheses = those of c08_transparent_key_safe (cache meeting the C15 contract, injective tags on
+   the history's policies, key-safe requests) + every policy of the history (the guards' initial
+   policies and every set_policy argument) is schema-valid + the request is in C06's domain. *)
+
+(* totality: no answer of the cached engines — served from the cache or not — is an exception *)
+Theorem c06_total_cached :
+  forall (rel : rel_query -> bool) (T : Type) (tag : value -> T) (teqb : T -> T -> bool),
+  (forall a b, teqb a b = true <-> a = b) ->
+  forall (M : cache_impl T), contract T teqb M ->
+  forall (copying : bool) (g1 g2 : gcfg) (h : list hop),
+  tag_inj T tag (policies_all g1 g2 h) ->
+  (forall e, In e (envs_all g1 g2 h) -> key_safe e = true) ->
+  (forall p, In p (policies_all g1 g2 h) -> schema_valid p = true) ->
+  forall pre w req post hit o,
+  h = pre ++ HEval w req :: post ->
+  nth_error (snd (run_cached unit (relh_pure rel) T tag canon builtin_both M copying h (init unit T M g1 g2 tt)))
+            (evals_in pre) = Some (hit, o) ->
+  request_ok req ->
+  forall e, o <> GRaise e.
+Proof. exact total_cached. Qed.
+Print Assumptions c06_total_cached.
+
+(* every Decision answered — hit or miss — is well formed and carries a documented reason *)
+Theorem c06_well_formed_cached :
+  forall (rel : rel_query -> bool) (T : Type) (tag : value -> T) (teqb : T -> T -> bool),
+  (forall a b, teqb a b = true <-> a = b) ->
+  forall (M : cache_impl T), contract T teqb M ->
+  forall (copying : bool) (g1 g2 : gcfg) (h : list hop),
+  tag_inj T tag (policies_all g1 g2 h) ->
+  (forall e, In e (envs_all g1 g2 h) -> key_safe e = true) ->
+  (forall p, In p (policies_all g1 g2 h) -> schema_valid p = true) ->
+  forall pre w req post hit d,
+  h = pre ++ HEval w req :: post ->
+  nth_error (snd (run_cached unit (relh_pure rel) T tag canon builtin_both M copying h (init unit T M g1 g2 tt)))
+            (evals_in pre) = Some (hit, GDecision d) ->
+  (d_effect d = "permit" \/ d_effect d = "deny") /\ (d_allowed d = true <-> d_effect d = "permit") /\
+  In (d_reason d) documented_reasons.
+Proof. exact well_formed_cached. Qed.
+Print Assumptions c06_well_formed_cached.
+
+(* the same over the ANSWER LIST of the cached run: when every request of the history is in the
+   domain, every entry is a well-formed Decision with a documented reason or a result outside the
+   model's domain (GOod, exactly as in c06_total) — never an exception *)
+Theorem c06_every_cached_answer_fine :
+  forall (rel : rel_query -> bool) (T : Type) (tag : value -> T) (teqb : T -> T -> bool),
+  (forall a b, teqb a b = true <-> a = b) ->
+  forall (M : cache_impl T), contract T teqb M ->
+  forall (copying : bool) (g1 g2 : gcfg) (h : list hop),
+  tag_inj T tag (policies_all g1 g2 h) ->
+  (forall e, In e (envs_all g1 g2 h) -> key_safe e = true) ->
+  (forall p, In p (policies_all g1 g2 h) -> schema_valid p = true) ->
+  forall i hit o,
+  (forall w req, In (HEval w req) h -> request_ok req) ->
+  nth_error (snd (run_cached unit (relh_pure rel) T tag canon builtin_both M copying h (init unit T M g1 g2 tt))) i
+    = Some (hit, o) ->
+  match o with
+  | GDecision d =>
+      (d_effect d = "permit" \/ d_effect d = "deny") /\ (d_allowed d = true <-> d_effect d = "permit") /\
+      In (d_reason d) documented_reasons
+  | GRaise _ => False
+  | GOod => True
+  end.
+Proof. exact every_cached_answer_fine. Qed.
+Print Assumptions c06_every_cached_answer_fine.
+
+(* schema validity of the history's policies discharges the structural hypothesis (tree_ok of every
+   policy of the history) of the cached C01 / C11 theorems *)
+Theorem c06_schema_valid_history_tree_ok : forall (g1 g2 : gcfg) (h : list hop),
+  (forall p, In p (policies_all g1 g2 h) -> schema_valid p = true) ->
+  forall p, In p (policies_all g1 g2 h) -> tree_ok p.
+Proof. exact history_tree_ok. Qed.
+Print Assumptions c06_schema_valid_history_tree_ok.
+
+(* non-vacuity (history xh of theories/CacheExplain.v on DefaultInMemoryCache(4): miss, HIT, set_policy,
+   refused miss, miss, HIT — answers in c01_cached_example_answers): the hypotheses hold of it ... *)
+Example c06_cached_example_hypotheses :
+  tag_inj value canon (policies_all xg xg xh) /\
+  (forall e, In e (envs_all xg xg xh) -> key_safe e = true) /\
+  (forall p, In p (policies_all xg xg xh) -> schema_valid p = true) /\
+  (forall w req, In (HEval w req) xh -> request_ok req).
+Proof.
+  destruct x_hypotheses_hold as (Htag & Hsafe & _).
+  exact (conj Htag (conj Hsafe (conj x_policies_schema_valid x_requests_in_domain))).
+Qed.
+(* ... and so every one of its answers, the two hits included, is a well-formed Decision *)
+Example c06_cached_example_every_answer_fine : forall i hit o, nth_error xouts i = Some (hit, o) ->
+  match o with
+  | GDecision d =>
+      (d_effect d = "permit" \/ d_effect d = "deny") /\ (d_allowed d = true <-> d_effect d = "permit") /\
+      In (d_reason d) documented_reasons
+  | GRaise _ => False
+  | GOod => True
+  end.
+Proof. exact x_every_answer_fine. Qed.
